@@ -39,9 +39,9 @@ func (m *Mutex) Lock() {
 	if e.Aborted() {
 		return
 	}
-	sched.Point(fmt.Sprintf("Mutex.Lock %p", m))
+	sched.Point("Mutex.Lock")
 	s := mstate(e, m)
-	sched.Block(func() bool { return s.Writer == 0 }, fmt.Sprintf("mutex %p", m))
+	sched.Block(func() bool { return s.Writer == 0 }, "mutex")
 	s.Writer = sched.CurrentTask() + 1
 }
 
@@ -59,7 +59,7 @@ func (m *Mutex) Unlock() {
 		sched.Fault("unlock of an unlocked mutex")
 	}
 	s.Writer = 0
-	sched.Point(fmt.Sprintf("Mutex.Unlock %p", m))
+	sched.Point("Mutex.Unlock")
 }
 
 // RWMutex replaces sync.RWMutex.
@@ -74,9 +74,9 @@ func (m *RWMutex) Lock() {
 	if e.Aborted() {
 		return
 	}
-	sched.Point(fmt.Sprintf("RWMutex.Lock %p", m))
+	sched.Point("RWMutex.Lock")
 	s := mstate(e, m)
-	sched.Block(func() bool { return s.Writer == 0 && len(s.Readers) == 0 }, fmt.Sprintf("rwmutex %p (write)", m))
+	sched.Block(func() bool { return s.Writer == 0 && len(s.Readers) == 0 }, "rwmutex (write)")
 	s.Writer = sched.CurrentTask() + 1
 }
 
@@ -94,7 +94,7 @@ func (m *RWMutex) Unlock() {
 		sched.Fault("unlock of an unlocked rwmutex")
 	}
 	s.Writer = 0
-	sched.Point(fmt.Sprintf("RWMutex.Unlock %p", m))
+	sched.Point("RWMutex.Unlock")
 }
 
 func (m *RWMutex) RLock() {
@@ -106,9 +106,9 @@ func (m *RWMutex) RLock() {
 	if e.Aborted() {
 		return
 	}
-	sched.Point(fmt.Sprintf("RWMutex.RLock %p", m))
+	sched.Point("RWMutex.RLock")
 	s := mstate(e, m)
-	sched.Block(func() bool { return s.Writer == 0 }, fmt.Sprintf("rwmutex %p (read)", m))
+	sched.Block(func() bool { return s.Writer == 0 }, "rwmutex (read)")
 	s.Readers[sched.CurrentTask()]++
 }
 
@@ -128,7 +128,7 @@ func (m *RWMutex) RUnlock() {
 	} else if s.Readers[t]--; s.Readers[t] == 0 {
 		delete(s.Readers, t)
 	}
-	sched.Point(fmt.Sprintf("RWMutex.RUnlock %p", m))
+	sched.Point("RWMutex.RUnlock")
 }
 
 // Pool replaces sync.Pool. Inside an execution it is a deterministic stack that
@@ -165,12 +165,12 @@ func (p *Pool) Get() interface{} {
 		}
 		return p.New()
 	}
-	sched.Point(fmt.Sprintf("Pool.Get %p", p))
+	sched.Point("Pool.Get")
 	s := pstate(e, p)
 	// environment choice: 0 = most recently put object (maximal reuse), then the
 	// other pooled objects from newest to oldest, last = a fresh object
 	n := len(s.Items)
-	c := sched.Choose(n+1, fmt.Sprintf("Pool.Get %p", p))
+	c := sched.Choose(n+1, "Pool.Get")
 	if n == 0 || c == n {
 		if p.New == nil {
 			return nil
@@ -194,7 +194,7 @@ func (p *Pool) Put(x interface{}) {
 	if e.Aborted() {
 		return
 	}
-	sched.Point(fmt.Sprintf("Pool.Put %p", p))
+	sched.Point("Pool.Put")
 	s := pstate(e, p)
 	if s.In[x] {
 		sched.Fault(fmt.Sprintf("an object of type %T was put into its sync.Pool while it was already in the pool: it will be handed to two owners", x))
